@@ -60,6 +60,9 @@ TEMPLATES = {
     'req_inline_off': (["print('r{k}' + (mark({k}) or ''))  # xdoctest: -REQUIRES(module:%s)" % MISSING], ["r{k}"], ('out', "r{k}\n", 'lift_requires')),
     # two conditions, the first met, the second not
     'req_on2':      (["# xdoctest: +REQUIRES(module:os, module:%s)" % MISSING], None, ('dir', 'REQUIRES', True)),
+    # a helper defined by one part (longer than the part that calls it) and called by a later one
+    'helper_def':   (["def helper(_m=mark({k})):", "    a = 1", "    b = 2", "    c = 3", "    raise ValueError('boomH')"], None, ('defhelper',)),
+    'helper_call':  (["(mark({k}), helper())[1]"], None, ('callhelper',)),
     # names shared with the module the doctest belongs to
     'rebind':       (["shared = 'doc{k}' + (mark({k}) or '')"], None, ('rebind', "doc{k}")),
     'read_shared':  (["print(shared + (mark({k}) or ''))"], ["{shared}"], ('read_shared',)),
@@ -114,6 +117,7 @@ def oracle(parts, table):
     logged = {}
     n_skipped = 0
     shared = 'module'
+    helper_defined = False
 
     def verdict(failed, px=None, exc=None):
         return dict(marks=marks, failed=failed, fail_part=px, exc_name=exc, n_skipped=n_skipped, logged=logged)
@@ -155,6 +159,11 @@ def oracle(parts, table):
                 value = beh[2]
             elif beh[0] == 'value':
                 value = beh[1]
+            elif beh[0] == 'defhelper':
+                helper_defined = True
+            elif beh[0] == 'callhelper':
+                raised = ('raise', 'ValueError', 'boomH') if helper_defined else ('raise', 'NameError', "name 'helper' is not defined")
+                break
             elif beh[0] == 'rebind':
                 shared = beh[1]
             elif beh[0] == 'read_shared':
@@ -205,10 +214,17 @@ def check_one(doctest_example, seq, modpath, module):
         trace = []
         dt.global_namespace['mark'] = trace.append
         try:
-            summary = dt.run(on_error='return', verbose=0)
+            # the second run is verbose (C09: verbosity 0..3): what run prints must not change what it does
+            if attempt == 0:
+                summary = dt.run(on_error='return', verbose=0)
+            else:
+                import contextlib
+                import io
+                with contextlib.redirect_stdout(io.StringIO()):
+                    summary = dt.run(on_error='return', verbose=3)
         except Exception as ex:      # noqa
             sys.stdout = stdout0
-            return text, 'C09: run(on_error="return") raised %r (run #%d)' % (ex, attempt + 1)
+            return text, 'C09: run(on_error="return", verbose=%d) raised %r (run #%d)' % (0 if attempt == 0 else 3, ex, attempt + 1)
         if sys.stdout is not stdout0:
             sys.stdout = stdout0
             return text, 'C12: sys.stdout is not restored after run #%d' % (attempt + 1)
